@@ -16,9 +16,9 @@ var chainAssume = []string{
 
 func chainFamilies(tier string) []string {
 	if fw.Quick(tier) {
-		return []string{"steady", "ragged", "leak", "churn", "capella", "custom", "ejectall", "lateincl", "churn", "capella", "leak", "ejectdeneb", "lateincl", "capella", "ragged", "mainnet"}
+		return []string{"steady", "ragged", "leak", "churn", "capella", "custom", "ejectall", "lateincl", "churn", "capella", "leak", "ejectdeneb", "lateincl", "massslash", "ragged", "mainnet"}
 	}
-	return []string{"steady", "ragged", "leak", "churn", "capella", "custom", "mainnet", "lateincl", "churn", "capella", "ragged", "leak", "custom", "ejectall", "lateincl", "ejectdeneb"}
+	return []string{"steady", "ragged", "leak", "churn", "capella", "custom", "mainnet", "lateincl", "churn", "capella", "ragged", "leak", "custom", "ejectall", "lateincl", "ejectdeneb", "massslash"}
 }
 
 func init() {
